@@ -19,6 +19,27 @@ AX = {
 }
 
 PROPERTIES = {
+    'C07': {
+        'functions': ['EventBus.dispatch', 'EventBus._would_create_loop', 'EventBus._get_applicable_handlers', 'bubus.get_handler_id',
+                      'EventBus._handler_dispatched_ancestor', 'bubus.get_handler_name', 'EventBus._start', 'EventBus.cleanup_event_history',
+                      'CleanShutdownQueue.put_nowait'],
+        'trusted_base': [AX[k] for k in ('A1', 'A5', 'A7', 'A10', 'X1', 'X2', 'P2', 'P5')] + [
+            'P3 distinct live buses have distinct names (EventBus.__init__ renames on conflict)',
+            'registered handlers satisfy the class invariant asserted by EventBus.on (function / coroutine function / bound method; only bound methods have __self__)',
+            'lemma (over the contracts, argued in DESIGN.md section 6 C07, not machine-checked): a forwarding handler passes the filter only if its target is not in the path, '
+            'dispatch appends the target name exactly once, so |buses \\ path| strictly decreases along forwarding: termination and once-per-bus follow with C01'],
+        'not_decided': ['exactly-once processing per reachable bus is the composition with C01 (per-bus handler ids) and is not restated here'],
+        'assumptions': [],
+    },
+    'C14': {
+        'functions': ['EventBus.dispatch', 'EventBus._start', 'CleanShutdownQueue.put_nowait', 'EventBus.cleanup_event_history', 'EventBus._run_loop'],
+        'trusted_base': [AX[k] for k in ('A1', 'A2', 'A5', 'A7', 'A10', 'X1', 'X2', 'P5')] + [
+            'bus object invariant: _is_running implies event_queue is not None; event_queue is not None implies _on_idle is not None (proved preserved by _start and dispatch)',
+            'the loop-close hook installed by _start (close_with_cleanup) is not executed by dispatch and is not verified here',
+            'EventBus.cleanup_event_history contract is assumed here and verified under C13'],
+        'not_decided': ['"accepted events are then processed" is C01/C02 (dequeue sites hand every dequeued event to process_event); here: accepted => enqueued at the tail, exactly once'],
+        'assumptions': [],
+    },
     'C19': {
         'functions': ['helpers._execute_with_retries', 'helpers.retry.wrapper'],
         'trusted_base': [AX[k] for k in ('A1', 'A4', 'A8', 'A10', 'X1', 'X2', 'P1')] + [
